@@ -492,12 +492,12 @@ pub fn run_index(prop: &str, tier: Tier, seed: u64, i: u64, mon: &mut Mon, found
 /// Runs per tier: sized so that quick stays well under a minute on 16 cores.
 pub fn run_count(prop: &str, tier: Tier) -> u64 {
     let (q, t) = match prop {
-        "C06" => (12_000, 400_000),
-        "C19" => (40_000, 1_500_000),
-        "C07" => (12_000, 400_000),
-        "C12" => (150_000, 6_000_000),
-        "C03" => (150_000, 6_000_000),
-        "C17" => (120_000, 4_000_000),
+        "C06" => (100_000, 2_000_000),
+        "C19" => (1_000_000, 20_000_000),
+        "C07" => (100_000, 2_000_000),
+        "C12" => (1_500_000, 30_000_000),
+        "C03" => (800_000, 16_000_000),
+        "C17" => (2_000_000, 40_000_000),
         _ => (1000, 10_000),
     };
     match tier {
